@@ -42,7 +42,9 @@ type Env struct {
 	HC    *http.Client     // HTTP/1.1
 	H2    *http.Client     // prior-knowledge h2c, used for bidi (HTTP/1 is half-duplex)
 	seq   atomic.Int64
-	dumps atomic.Int32
+	// WantDump: capture larking's goroutines shortly before a proxied call
+	// hits the deadline (set while hangs are re-executed and in replays).
+	WantDump atomic.Bool
 }
 
 func (e *Env) Close() {
@@ -194,7 +196,7 @@ func (e *Env) Exec(s *Script) *Result {
 		case <-finished:
 		case <-time.After(CallTimeout - 1500*time.Millisecond):
 			hungState = collect(prec, 0)
-			if e.dumps.Add(1) <= 3 {
+			if e.WantDump.Load() {
 				buf := make([]byte, 4<<20)
 				n := runtime.Stack(buf, true)
 				dump = larkingGoroutines(string(buf[:n]))
@@ -416,13 +418,9 @@ func report(r *mon.Run, res *Result) {
 	if res.DirectB.Inv[0].EOFAfter >= 0 {
 		r.Count("half_close_observed_by_backend", 1)
 	}
-	for k := range res.DirectB.Inv[0].MD {
-		_ = k
-		r.Count("custom_metadata_keys_compared", 1)
-	}
+	r.Count("custom_metadata_keys_compared", len(res.DirectB.Inv[0].MD))
 	for _, d := range res.Diffs {
-		key := fmt.Sprintf("%s/%s:%s:%s", s.Front, s.Shape, d.Obs, d.Class)
-		r.Violate(key, fmt.Sprintf("%s [script %s]", d.Detail, s), res)
+		r.Violate(diffKey(s, d), fmt.Sprintf("%s [script %s]", d.Detail, s), res)
 	}
 	if len(res.Diffs) == 0 && r.SampleN() < 6 {
 		r.Sample(map[string]any{"script": s.String(), "direct_client": res.DirectC, "proxied_client": res.ProxyC, "backend": res.ProxyB})
@@ -478,7 +476,41 @@ func panicKey(log string) (string, string) {
 	return "panic@" + frame + ":" + mon.NormMsg(msg), line
 }
 
+func isHang(res *Result) bool {
+	return len(res.Diffs) == 1 && res.Diffs[0].Obs == "hang"
+}
+
+func diffKey(s *Script, d Diff) string {
+	return fmt.Sprintf("%s/%s:%s:%s", s.Front, s.Shape, d.Obs, d.Class)
+}
+
+func execAll(e *Env, cases []*Script, workers int, sink func(*Result)) {
+	ch := make(chan *Script)
+	var wg sync.WaitGroup
+	for w := 0; w < workers; w++ {
+		wg.Add(1)
+		go func() {
+			defer wg.Done()
+			for s := range ch {
+				sink(e.Exec(s))
+			}
+		}()
+	}
+	for _, s := range cases {
+		ch <- s
+	}
+	close(ch)
+	wg.Wait()
+}
+
 // RunC10 executes the tier's case list.
+//
+// Phase 1 runs all scripts on 48 workers. Results that rest on the clock —
+// a proxied call pending at the deadline, a direct call that was slow — are
+// not trusted as they are: in phase 2 they are executed again on an almost
+// idle process. A hang is reported only for finding keys for which a
+// re-execution hangs again (then all instances of the key count); an
+// inconclusive script is recorded only if it is inconclusive twice.
 func RunC10(r *mon.Run) {
 	setup(r)
 	e, err := NewEnv()
@@ -489,23 +521,95 @@ func RunC10(r *mon.Run) {
 	defer e.Close()
 	cases := Cases(r.Rand("c10-scripts"), r.Thorough())
 	r.Set("scripts_planned", len(cases))
-	workers := 48
-	ch := make(chan *Script)
-	var wg sync.WaitGroup
-	for w := 0; w < workers; w++ {
-		wg.Add(1)
-		go func() {
-			defer wg.Done()
-			for s := range ch {
-				report(r, e.Exec(s))
+
+	var mu sync.Mutex
+	hangs := map[string][]*Result{} // by finding key
+	var hangKeys []string
+	var incon []*Result
+	execAll(e, cases, 48, func(res *Result) {
+		switch {
+		case res.Incon != "":
+			mu.Lock()
+			incon = append(incon, res)
+			mu.Unlock()
+		case isHang(res):
+			k := diffKey(res.Script, res.Diffs[0])
+			mu.Lock()
+			if _, ok := hangs[k]; !ok {
+				hangKeys = append(hangKeys, k)
 			}
-		}()
+			hangs[k] = append(hangs[k], res)
+			mu.Unlock()
+		default:
+			report(r, res)
+		}
+	})
+
+	// phase 2a: scripts that were inconclusive once
+	if len(incon) > 200 {
+		for _, res := range incon[200:] {
+			report(r, res)
+		}
+		incon = incon[:200]
 	}
-	for _, s := range cases {
-		ch <- s
+	var again []*Script
+	for _, res := range incon {
+		again = append(again, res.Script)
 	}
-	close(ch)
-	wg.Wait()
+	r.Count("scripts_re_executed", len(again))
+	execAll(e, again, 4, func(res *Result) {
+		if isHang(res) {
+			k := diffKey(res.Script, res.Diffs[0])
+			mu.Lock()
+			if _, ok := hangs[k]; !ok {
+				hangKeys = append(hangKeys, k)
+			}
+			hangs[k] = append(hangs[k], res)
+			mu.Unlock()
+			return
+		}
+		report(r, res)
+	})
+
+	// phase 2b: confirm every hang key on (up to) three of its scripts
+	sort.Strings(hangKeys)
+	confirmed := map[string]bool{}
+	dumpOf := map[string]string{}
+	e.WantDump.Store(true)
+	var cw sync.WaitGroup
+	for _, k := range hangKeys {
+		cw.Add(1)
+		go func(k string) {
+			defer cw.Done()
+			list := hangs[k]
+			for i := 0; i < len(list) && i < 3; i++ {
+				res := e.Exec(list[i].Script)
+				r.Count("hangs_re_executed", 1)
+				if isHang(res) && diffKey(res.Script, res.Diffs[0]) == k {
+					mu.Lock()
+					confirmed[k] = true
+					dumpOf[k] = res.Dump
+					mu.Unlock()
+					return
+				}
+			}
+		}(k)
+	}
+	cw.Wait()
+	for _, k := range hangKeys {
+		for _, res := range hangs[k] {
+			if confirmed[k] {
+				if res.Dump == "" {
+					res.Dump = dumpOf[k]
+				}
+				report(r, res)
+				continue
+			}
+			res.Incon = "proxied call hit the deadline once but not when the script was executed again: " + res.Diffs[0].Detail
+			res.Diffs = nil
+			report(r, res)
+		}
+	}
 	finish(r, e)
 }
 
@@ -529,6 +633,7 @@ func Replay(r *mon.Run, raw json.RawMessage) {
 		return
 	}
 	defer e.Close()
+	e.WantDump.Store(true)
 	res := e.Exec(doc.Script)
 	report(r, res)
 	b, _ := json.MarshalIndent(res, "", " ")
